@@ -40,7 +40,7 @@ ASSUMPTIONS["C02"] = ["pointer is 8-aligned and (when non-null) backed by max(to
 # ------------------------------------------------------------------ C03 ----
 PLANS["C03"] = dict(
     quick=[run("dev"), run("rel"), run("asan", procs=4), run("miri", procs=16, density=24, max_cases=60, timeout_s=900)],
-    thorough=[run("dev"), run("rel"), run("asan", procs=8), run("miri", procs=16, density=40, budget_s=700, timeout_s=3000), run("miri-rel", procs=16, density=80, budget_s=700, timeout_s=3000)],
+    thorough=[run("dev"), run("rel"), run("asan", procs=8), run("miri", procs=16, density=40, budget_s=450, timeout_s=3000), run("miri-rel", procs=16, density=80, budget_s=450, timeout_s=3000)],
     exhaustive=dict(quick=True, thorough=True),
     exhaustive_domain=dict(
         quick="native: the complete tree of declared-size sequences (every size 0..=remaining+9 at every walk position) over areas of 8..=48 bytes, directly through TagIter and through load()+tags(); plus 20000 random longer walks. Miri/ASan: slices of the same case space",
@@ -178,7 +178,7 @@ RULES["C18"] = ("cases: (desc_size, version, map length, standalone/embedded) wi
 # ------------------------------------------------------------------ C19 ----
 PLANS["C19"] = dict(
     quick=[run("dev"), run("rel"), run("asan", procs=8), run("miri", procs=16, density=6, timeout_s=900)],
-    thorough=[run("dev"), run("rel"), run("asan"), run("miri", procs=16, timeout_s=3000), run("miri-rel", procs=16, density=2, timeout_s=3000)],
+    thorough=[run("dev"), run("rel"), run("asan"), run("miri", procs=16, budget_s=500, timeout_s=3000), run("miri-rel", procs=16, density=2, budget_s=500, timeout_s=3000)],
     exhaustive_domain=dict(
         quick="entry count 0..=5 x entry size 0..=128 x string-table index {0..=n+1, 2^16, 2^32-1} x section byte length {0, n*e, n*e+-1, n*e+-8} (full cross product for entry sizes 40, 64 and multiples of 8, 1/4 sample elsewhere), via sections() standalone, via elf_sections_tag().sections() and the deprecated elf_sections(); 2000 random conformant tags",
         thorough="same + 20000 random conformant tags",
@@ -194,8 +194,8 @@ PLANS["C01"] = dict(
     quick=[run("dev", procs=8, max_cases=120000, budget_s=35), run("rel", procs=8, max_cases=400000, budget_s=35), run("asan", procs=8, max_cases=150000, budget_s=35, timeout_s=900),
            run("miri", procs=16, density=4096, budget_s=55, timeout_s=900), run("miri-rel", procs=8, density=8192, budget_s=45, timeout_s=900),
            run("dev", driver="C01vbe", procs=1, timeout_s=120), run("rel", driver="C01vbe", procs=1, timeout_s=120), run("fuzz", modes="0,3", secs=30)],
-    thorough=[run("dev", max_cases=1500000, budget_s=300, timeout_s=3000), run("rel", max_cases=6000000, budget_s=300, timeout_s=3000), run("asan", max_cases=2000000, budget_s=300, timeout_s=3000),
-              run("miri", procs=16, density=4096, budget_s=700, timeout_s=3000), run("miri-rel", procs=16, density=4096, budget_s=700, timeout_s=3000),
+    thorough=[run("dev", max_cases=1500000, budget_s=200, timeout_s=3000), run("rel", max_cases=6000000, budget_s=200, timeout_s=3000), run("asan", max_cases=2000000, budget_s=200, timeout_s=3000),
+              run("miri", procs=16, density=4096, budget_s=450, timeout_s=3000), run("miri-rel", procs=16, density=4096, budget_s=450, timeout_s=3000),
               run("dev", driver="C01vbe", procs=1, timeout_s=120), run("rel", driver="C01vbe", procs=1, timeout_s=120), run("miri", driver="C01vbe", procs=1, timeout_s=300),
               run("fuzz", modes="0,3", secs=300)],
 )
@@ -213,8 +213,8 @@ LEVEL_NOTES["C01"] = "trusted base: Miri (UB interpreter), the MMU (guard pages)
 PLANS["C09"] = dict(
     quick=[run("dev", procs=8, max_cases=150000, budget_s=30), run("rel", procs=8, max_cases=400000, budget_s=30), run("asan", procs=8, max_cases=150000, budget_s=30, timeout_s=900),
            run("miri", procs=16, density=4096, budget_s=50, timeout_s=900), run("fuzz", modes="1", secs=30)],
-    thorough=[run("dev", max_cases=1500000, budget_s=300, timeout_s=3000), run("rel", max_cases=6000000, budget_s=300, timeout_s=3000), run("asan", max_cases=2000000, budget_s=300, timeout_s=3000),
-              run("miri", procs=16, density=4096, budget_s=700, timeout_s=3000), run("miri-rel", procs=16, density=4096, budget_s=700, timeout_s=3000),
+    thorough=[run("dev", max_cases=1500000, budget_s=200, timeout_s=3000), run("rel", max_cases=6000000, budget_s=200, timeout_s=3000), run("asan", max_cases=2000000, budget_s=200, timeout_s=3000),
+              run("miri", procs=16, density=4096, budget_s=450, timeout_s=3000), run("miri-rel", procs=16, density=4096, budget_s=450, timeout_s=3000),
               run("fuzz", modes="1", secs=240)],
 )
 RULES["C09"] = ("cases: conformant header (11 kinds, defined enum values, 0..10 tags + end tag) kept (1/12), payload words randomised (1/12) or hit by 1..2 boundary-value corruptions of the header length / tag sizes (checksum recomputed so it still loads); "
@@ -225,7 +225,7 @@ ASSUMPTIONS["C09"] = ["architecture, tag type, tag flags, console flags and relo
 # ------------------------------------------------------------------ C04 ----
 PLANS["C04"] = dict(
     quick=[run("dev", budget_s=50), run("rel", budget_s=50), run("asan", procs=8, density=2, budget_s=50), run("miri", procs=16, density=40, budget_s=70, timeout_s=900), run("miri-rel", procs=8, density=160, budget_s=60, timeout_s=900)],
-    thorough=[run("dev", budget_s=500, timeout_s=3000), run("rel", budget_s=500, timeout_s=3000), run("asan", budget_s=400, timeout_s=3000), run("miri", procs=16, density=100, budget_s=900, timeout_s=3000), run("miri-rel", procs=16, density=100, budget_s=900, timeout_s=3000)],
+    thorough=[run("dev", budget_s=500, timeout_s=3000), run("rel", budget_s=500, timeout_s=3000), run("asan", budget_s=400, timeout_s=3000), run("miri", procs=16, density=100, budget_s=500, timeout_s=3000), run("miri-rel", procs=16, density=100, budget_s=500, timeout_s=3000)],
 )
 RULES["C04"] = ("cases: all 256 framebuffer type bytes x 3 colour-info shapes (with a second, well-formed framebuffer tag behind); every kind alone and twice; random conformant regions (<=14 tags over all 22 kinds + custom types, multiplicities by repetition, byte-marked contents, "
                 "EFI map with/without a boot-services tag in either order forced in 1/8). Every typed getter must return the first tag of its type by address (or None); every public accessor is compared with the little-endian value at the specified offset. "
@@ -235,7 +235,7 @@ ASSUMPTIONS["C04"] = ["VBE memory_model in 0..=7; RSDP v2 length in {20, 36}; me
 # ------------------------------------------------------------------ C11 ----
 PLANS["C11"] = dict(
     quick=[run("dev", budget_s=40), run("rel", budget_s=40), run("asan", procs=8, density=2, budget_s=40), run("miri", procs=16, density=40, budget_s=60, timeout_s=900)],
-    thorough=[run("dev", budget_s=400, timeout_s=3000), run("rel", budget_s=400, timeout_s=3000), run("asan", budget_s=400, timeout_s=3000), run("miri", procs=16, density=100, budget_s=900, timeout_s=3000), run("miri-rel", procs=16, density=100, budget_s=900, timeout_s=3000)],
+    thorough=[run("dev", budget_s=400, timeout_s=3000), run("rel", budget_s=400, timeout_s=3000), run("asan", budget_s=400, timeout_s=3000), run("miri", procs=16, density=100, budget_s=500, timeout_s=3000), run("miri-rel", procs=16, density=100, budget_s=500, timeout_s=3000)],
 )
 RULES["C11"] = ("cases: information-request lists of every length 0..=32; every kind alone and twice; random conformant headers (<=12 tags, both architectures). Header accessors, the walk (address, type, flags, size, payload length, in-memory size of every item) "
                 "and every typed getter/accessor are compared with the reference decode. distinct = hash of the header bytes.")
